@@ -1261,7 +1261,7 @@ func (s *sim) execSMEnter(op Op) {
 	}
 	// A7: the mirror has no view for that round (orphaned or future)
 	found := (h == s.vv.Height && (r == s.vv.Round || r == s.vv.Round+1)) ||
-		(s.cv.Height > 0 && h == s.cv.Height && r <= s.cv.Round) || (s.cv.Height > 0 && h < s.cv.Height)
+		(s.cv.Height > 0 && h == s.cv.Height) || (s.cv.Height > 0 && h < s.cv.Height)
 	if !found && s.skipKnown("C09-A7") {
 		return
 	}
@@ -1297,6 +1297,14 @@ func (s *sim) execSMEnter(op Op) {
 	}
 	if !got {
 		return
+	}
+	if s.cv.Height > 0 && h == s.cv.Height && r > s.cv.Round {
+		// the machine left the committing round by a timeout before the mirror committed it: that height is decided
+		if !resp.IsCH() || string(resp.CH.Header.Hash) != s.committingHash() {
+			s.failf("", "entrance-beyond-committing-round", "entrance %d/%d while the mirror commits %d/%d was not answered with the committed header %s (is committed header: %v)", h, r, s.cv.Height, s.cv.Round, hx([]byte(s.committingHash())), resp.IsCH())
+			return
+		}
+		s.label("sment:beyond-committing-round")
 	}
 	s.n.entered, s.n.entH, s.n.entR, s.n.actions = true, h, r, re.Actions
 	s.smRecv = append(s.smRecv, smRec{Step: s.step, Entrance: true, H: h, R: r,
